@@ -11,7 +11,7 @@ EXTENDS Lifecycle
 VARIABLE l
 Trace == ndJsonDeserialize("trace.ndjson")
 
-tvars == <<hist, pc, op, g, old, k, inst, cb, srv, wg, instances, waiter, held, att, l>>
+tvars == <<hist, pc, op, g, old, k, ph, inst, cb, srv, wg, instances, waiter, held, att, l>>
 
 TInit == Init /\ l = 1
 E == Trace[l]
@@ -33,20 +33,22 @@ TListen == /\ IsEvent("listen") /\ pc = "listen" /\ g = E.g /\ k = E.k /\ ~Inher
            /\ ListenStep
 TInherit == IsEvent("inherit") /\ pc = "listen" /\ g = E.g /\ k = E.k /\ Inherits(k) /\ ListenStep
 
+\* a server's Stop() is entered ...
 TStop == /\ IsEvent("stop")
-         /\ \/ pc = "oldstop" /\ old = E.g /\ k = E.k /\ StopOldServer
-            \/ pc = "stop" /\ old = E.g /\ k = E.k /\ StopServer
-            \/ /\ pc = "stopall" /\ instances # <<>>
-               /\ (IF k = 0 THEN Head(instances) ELSE old) = E.g
-               /\ (IF k = 0 THEN 1 ELSE k) = E.k
-               /\ StopAllServer
+         /\ \/ pc = "oldstop" /\ old = E.g /\ k = E.k /\ StopOldCall
+            \/ pc = "stop" /\ old = E.g /\ k = E.k /\ StopOpCall
+            \/ pc = "stopall" /\ k = 0 /\ instances # <<>> /\ Head(instances) = E.g /\ E.k = 1 /\ StopAllPickCall
+            \/ pc = "stopall" /\ k > 1 /\ old = E.g /\ k = E.k /\ StopAllCall
+\* ... and has returned (the server has drained)
+TStopped == /\ IsEvent("stopped") /\ old = E.g /\ k = E.k
+            /\ \/ StopOldRet \/ StopOpRet \/ StopAllRet
 
 \* casket.Stop's deferred Done()s happen before the harness can log the return: compose
 ReleaseThenReturn ==
-    /\ pc = "stopall" /\ instances = <<>> /\ k = 0
+    /\ pc = "stopall" /\ instances = <<>> /\ k = 0 /\ ph = 0
     /\ wg' = [x \in Lins |-> wg[x] - Cardinality({y \in held : inst[y].lin = x})]
     /\ held' = {} /\ pc' = "idle"
-    /\ UNCHANGED <<hist, op, g, old, k, inst, cb, srv, instances, waiter, att>>
+    /\ UNCHANGED <<hist, op, g, old, k, ph, inst, cb, srv, instances, waiter, att>>
 
 TRet == /\ IsEvent("ret")
         /\ \/ (E.res = "ok") = (pc = "retok") /\ Return
@@ -59,16 +61,16 @@ TSpEnd == IsEvent("spEnd") /\ ServePacketEnd(E.g, E.k)
 TWaitCall == IsEvent("waitCall") /\ WaitCall(E.lin)
 
 ReleaseThenWaitReturn(x) ==
-    /\ pc = "stopall" /\ instances = <<>> /\ k = 0 /\ waiter[x] = "waiting"
+    /\ pc = "stopall" /\ instances = <<>> /\ k = 0 /\ ph = 0 /\ waiter[x] = "waiting"
     /\ wg[x] - Cardinality({y \in held : inst[y].lin = x}) = 0
     /\ wg' = [z \in Lins |-> wg[z] - Cardinality({y \in held : inst[y].lin = z})]
     /\ held' = {} /\ pc' = "retok"
     /\ waiter' = [waiter EXCEPT ![x] = "returned"]
-    /\ UNCHANGED <<hist, op, g, old, k, inst, cb, srv, instances, att>>
+    /\ UNCHANGED <<hist, op, g, old, k, ph, inst, cb, srv, instances, att>>
 TWaitRet == IsEvent("waitRet") /\ (WaitReturn(E.lin) \/ ReleaseThenWaitReturn(E.lin))
 
 TReset == /\ IsEvent("reset")
-          /\ hist' = <<>> /\ pc' = "idle" /\ op' = NoOp /\ g' = NoGen /\ old' = NoGen /\ k' = 0
+          /\ hist' = <<>> /\ pc' = "idle" /\ op' = NoOp /\ g' = NoGen /\ old' = NoGen /\ k' = 0 /\ ph' = 0
           /\ inst' = [x \in Gens |-> NoInst]
           /\ cb' = [x \in Gens |-> [kd \in Kinds |-> 0]]
           /\ srv' = [x \in Gens |-> [j \in 1..2 |-> NoSrv]]
@@ -78,7 +80,7 @@ TReset == /\ IsEvent("reset")
           /\ held' = {}
           /\ att' = [x \in Gens |-> [calls |-> 0, failed |-> 0]]
 
-TNext == TCall \/ TCb \/ TSetup \/ TListen \/ TInherit \/ TStop \/ TRet \/ TServeBegin \/ TServeEnd
+TNext == TCall \/ TCb \/ TSetup \/ TListen \/ TInherit \/ TStop \/ TStopped \/ TRet \/ TServeBegin \/ TServeEnd
          \/ TSpEnd \/ TWaitCall \/ TWaitRet \/ TReset
 TSpec == TInit /\ [][TNext]_tvars
 
